@@ -232,6 +232,25 @@ def coq_properties(ctx, pid=None, extra_targets=()):
     ctx.cov['coq_wall_s'] = round(time.time() - t, 1)
     if ok:
         ctx.cov['discharged'] += len(names)
+        # complete axiom report: Print Assumptions for EVERY obligation (the property file prints it for its main theorems only)
+        try:
+            sd = os.path.join(VERIF, 'coq', 'scratch'); os.makedirs(sd, exist_ok=True)
+            sf = os.path.join(sd, '%s_assumptions_%d.v' % (pid, os.getpid()))
+            with open(sf, 'w') as f:
+                f.write('From Gst Require Import %s.Properties.\n' % pid)
+                for n in names: f.write('Print Assumptions %s.\n' % n)
+            rc2, o2, e2 = sh(['coqc', '-Q', os.path.join(VERIF, 'coq'), 'Gst', sf], cwd=os.path.join(VERIF, 'coq'), timeout=600)
+            for ext in ('', 'o', 'ok', 'os'):
+                for q in (sf + ext, sf[:-2] + '.glob', os.path.join(sd, '.' + os.path.basename(sf)[:-2] + '.aux')):
+                    if os.path.exists(q) and q != sf: os.remove(q)
+            if os.path.exists(sf): os.remove(sf)
+            if rc2 == 0:
+                blocks = re.split(r'(?=Closed under the global context|Axioms:)', o2)
+                nclosed = sum(1 for b in blocks if b.startswith('Closed under'))
+                axs = sorted(set(re.findall(r'^([A-Za-z_][A-Za-z0-9_.\']*)\s*:', '\n'.join(b for b in blocks if b.startswith('Axioms:')), re.M)))
+                ctx.cov['print_assumptions'][pid].update({'all_obligations_closed': nclosed, 'all_obligations_with_axioms': len(names) - nclosed, 'all_axioms': axs})
+        except Exception as ex:
+            ctx.notes.append('axiom report failed: %r' % (ex,))
     else:
         err = re.findall(r'File "([^"]+)", line (\d+).*?\n(Error:.*?)(?:\n\n|\Z)', log, re.S)
         ctx.proof_errors = ['%s:%s %s' % (a, b, c.replace('\n', ' ')[:300]) for a, b, c in err] + bad
